@@ -1,0 +1,59 @@
+//go:build verif
+
+package client
+
+import (
+	"net/http"
+)
+
+// Ghost: the last request handed to the HTTP transport of a rest client, and what was recorded
+// about it when it was built (assumed contract of http.NewRequestWithContext).
+func ghost_lastReq(c httpClient) *http.Request { panic("ghost") }
+func ghost_nreq(c httpClient) int              { panic("ghost") }
+func ghost_reqMethod(r *http.Request) string   { panic("ghost") }
+func ghost_reqHasBody(r *http.Request) bool    { panic("ghost") }
+
+//@ iface httpClient.Do(self httpClient, req *http.Request) (resp *http.Response, err error)
+//@   modifies ghost_lastReq(self), ghost_nreq(self)
+//@   ensures ghost_lastReq(self) == req && ghost_nreq(self) == old(ghost_nreq(self)) + 1
+//@   ensures err == nil ==> resp != nil && resp.Body != nil
+//@   ensures err != nil ==> resp == nil
+
+// do / doJSON are promoted methods of the embedded (by value) restClient; they are verified inline in
+// every operation below (the engine does not pass interior pointers of embedded structs to contracts).
+//@ func (*restClient).do
+//@   inline
+//@ func (*restClient).doJSON
+//@   inline
+
+//@ pred spec_clientOK(c *Client) bool = c != nil && c.restClient.client != nil && c.restClient.baseURL != nil
+
+// The request each operation sends has the method its server-side route is registered for
+// (pkg/rest/routes.go), and a body exactly where the handler reads one (MailboxMarkSeenV1 decodes a
+// JSON body; the others ignore it).
+//@ func (*Client).GetMessageWithContext
+//@   requires spec_clientOK(c)
+//@   modifies *
+//@   ensures[request] ret1 == nil ==> ghost_reqMethod(ghost_lastReq(c.client)) == "GET"
+//@   serves C14
+//@ func (*Client).MarkSeenWithContext
+//@   requires spec_clientOK(c)
+//@   modifies *
+//@   ensures[request] ret == nil ==> ghost_reqMethod(ghost_lastReq(c.client)) == "PATCH"
+//@   ensures[body] ret == nil ==> ghost_reqHasBody(ghost_lastReq(c.client))
+//@   serves C14
+//@ func (*Client).GetMessageSourceWithContext
+//@   requires spec_clientOK(c)
+//@   modifies *
+//@   ensures[request] ret1 == nil ==> ghost_reqMethod(ghost_lastReq(c.client)) == "GET"
+//@   serves C14
+//@ func (*Client).DeleteMessageWithContext
+//@   requires spec_clientOK(c)
+//@   modifies *
+//@   ensures[request] ret == nil ==> ghost_reqMethod(ghost_lastReq(c.client)) == "DELETE"
+//@   serves C14
+//@ func (*Client).PurgeMailboxWithContext
+//@   requires spec_clientOK(c)
+//@   modifies *
+//@   ensures[request] ret == nil ==> ghost_reqMethod(ghost_lastReq(c.client)) == "DELETE"
+//@   serves C14
